@@ -1,5 +1,5 @@
 """Sidecar: contracts on the real functions of /repo, keyed by file::qualname.  Nothing here edits /repo."""
-MODULES=['bits_reg','dsl','mem','sched']
+MODULES=['bits_reg','dsl','mem','sched','nets']
 
 def rtl_specs():
   from . import rtl_arb, rtl_queues, rtl_cksum
@@ -58,7 +58,7 @@ def rtl_extra(prop,tier,seed,repo,reg,known):
   return run_specs([sp for sp in rtl_specs() if prop in sp.prop_ids],tier,repo)
 
 
-FIX_COMMITS=['052e08e','9c79cb1','dce12fb','1afafb3','61a0063','7632b61','95f312b','22cc801','ef02dce','8ef5b7c','87ae370','ea7dd35']
+FIX_COMMITS=['052e08e','9c79cb1','dce12fb','1afafb3','61a0063','7632b61','95f312b','22cc801','ef02dce','8ef5b7c','87ae370','ea7dd35','8b5fe28']
 
 PROPERTIES={
  'C04': dict(level='proof',
@@ -122,13 +122,13 @@ PROPERTIES={
    note="The generated SCC wrapper and the watched-set computation are not under discharged contracts. Labelled bounded.",
    explanation="executable statement of the property evaluated natively on an exhaustively enumerated family of cyclic designs",
    extra=['contracts:c11_extra'], require_cover=False, assumptions=[]),
- 'C08': dict(level='other', bounded_only=True,
-   claim="Bounded stand-in only (no obligation proved): 8 connection multisets over signals, slices (incl. a slice of a slice naming the same bits as a plain slice), struct fields at two depths with the whole struct connected too, constants and child ports, each in up to 6 (quick) / 24 (thorough) statement permutations x 3 side-flip patterns (117 designs quick): every variant elaborates to the same nets and writers, each net has exactly one writer that is a member, and in simulation every member carries the writer's value.",
-   note="_floodfill_nets / _resolve_value_connections are not under discharged contracts (DESIGN.md section 6 C08). Labelled bounded.",
-   explanation="executable statement of the property on an enumerated family of connection graphs",
-   extra=['contracts:c08_extra'], require_cover=False, assumptions=[]),
+ 'C08': dict(level='other',
+   claim="Mixed. Proved (arbitrary signal sets and arbitrary symmetric adjacency maps, every iteration order of the sets and every pop order of the work list; unbounded): ComponentLevel3._floodfill_nets returns nets that are exactly the connected components with at least two members of the connection graph - every net is closed under adjacency, connected (every member has a ghost parent chain of adjacent members to the net's root), nets are pairwise disjoint, and every listed signal with a neighbour is in one; no exception other than InvalidConnectionError can leave the function. Which member is named writer (_resolve_value_connections) and the simulated values are covered only by the bounded stand-in: 8 connection multisets over signals, slices (incl. a slice of a slice naming the same bits as a plain slice), struct fields at two depths with the whole struct connected too, constants and child ports, each in up to 6 (quick) / 24 (thorough) statement permutations x 3 side-flip patterns (117 designs quick): every variant elaborates to the same nets and writers, each net has exactly one writer that is a member, and in simulation every member carries the writer's value.",
+   note="_resolve_value_connections (writer choice) is not under a discharged contract; the list `nets` is abstracted as {root: net}, the work list as a bag (contracts/nets.py). The stand-in is labelled bounded.",
+   explanation="net grouping proved deductively on the real function; writer choice and simulated net values by an executable statement of the property on an enumerated family of connection graphs",
+   extra=['contracts:c08_extra'], require_cover=False, assumptions=["the adjacency map is symmetric (every connect/disconnect updates both directions)"]),
  'C09': dict(level='other',
-   claim="Mixed. Proved: Connectable._overlap (the bit-overlap test used for sibling slices) is exact. Bounded stand-in: 47 designs covering every defect class of the statement (two blocks on one signal, field vs parent, nested field twice, overlapping slices, slice vs whole, block vs net, two nets, net vs slice, undriven net, connection loops in 3 orders, 10 hierarchical-position cases for blocks and nets incl. constants, 9 wrong-operator cases incl. nested statements) in every order of their statements fail elaboration with the corresponding error class, and the defect-free counterparts (disjoint slices/fields, one block writing overlapping slices, tree connections, legal parent/child accesses) elaborate.",
+   claim="Mixed. Proved: Connectable._overlap (the bit-overlap test used for sibling slices) is exact; ComponentLevel3._floodfill_nets leaves only with its nets or with InvalidConnectionError (never another exception) for every symmetric adjacency map, self-connections included. Bounded stand-in: 47 designs covering every defect class of the statement (two blocks on one signal, field vs parent, nested field twice, overlapping slices, slice vs whole, block vs net, two nets, net vs slice, undriven net, connection loops in 3 orders, 10 hierarchical-position cases for blocks and nets incl. constants, 9 wrong-operator cases incl. nested statements) in every order of their statements fail elaboration with the corresponding error class, and the defect-free counterparts (disjoint slices/fields, one block writing overlapping slices, tree connections, legal parent/child accesses) elaborate.",
    note="_check_upblk_writes / _check_port_in_upblk / _check_port_in_nets are not under discharged contracts; designs with two simultaneous defects may report either error. Labelled bounded.",
    explanation="one helper proved; the elaboration checks are exercised natively on an enumerated defect table",
    extra=['contracts:c09_extra'], require_cover=False, assumptions=[]),
